@@ -3,12 +3,14 @@ import LenaModel.Model.C17
 import LenaModel.Model.C17Sess
 import LenaModel.Model.C17Ext
 import LenaModel.Model.C17Adv
+import LenaModel.Model.C17Num
 /-! Model driver for C17.  Requests:
   {"op":"slice","start":i|null,"stop":i|null,"step":i|null,"xs":[ints]}  -> {"r":[..]} | {"e":"LenaValueError"|"IndexError"}
   {"op":"pyslice",...same, step ≥ 1 or null}                             -> {"r":[..]}
   {"op":"fill_into","start":n,"stop":n|null,"step":n,"xs":[..]}          -> {"r":[..],"stop":i|null}
   {"op":"reverse","xs":[..]} {"op":"chain","xss":[[..],..]} {"op":"countfrom","start":i,"step":i,"n":n}
   {"op":"chunks","cs":n,"xs":[..]} {"op":"windows","cs":n,"xs":[..]}
+  {"op":"countfrom_q","start":[num,den],"step":[num,den],"n":n}  -> {"r":[[num,den],..]}   (countFromQ: exact rationals, den > 0, lowest terms)
  one instance used more than once (`Model/C17Sess`); OPS is a list whose items are a flow `[ints]` (= create a generator
  with `run(iter(flow))` / `__call__()`; the flow is ignored by countfrom and chain) or a number g (= `next` of generator g):
   {"op":"session","el":"countfrom","start":i,"step":i,"ops":OPS,"tail":n}   -> {"ev":[[g,v]|[g,null],..],"rest":[[next n values],..]}
@@ -216,6 +218,13 @@ def handle (j : Json) : Json :=
     match int? (getD j "start"), int? (getD j "step"), nat? (getD j "n") with
     | some a, some s, some n => Json.mkObj [("r", ofIntList (countFrom a s n))]
     | _, _, _ => err "bad countfrom args"
+  | some "countfrom_q" =>
+    match intList? (getD j "start"), intList? (getD j "step"), nat? (getD j "n") with
+    | some [an, ad], some [sn, sd], some n =>
+      if ad ≤ 0 ∨ sd ≤ 0 then err "bad countfrom_q denominators" else
+      Json.mkObj [("r", ofList (fun (q : Rat) => ofIntList [q.num, (q.den : Int)])
+        (countFromQ (mkRat an ad.toNat) (mkRat sn sd.toNat) n))]
+    | _, _, _ => err "bad countfrom_q args"
   | some "chunks" =>
     match nat? (getD j "cs"), intList? (getD j "xs") with
     | some cs, some xs => Json.mkObj [("r", ofList ofIntList (runningChunkBy cs xs))]
